@@ -4,9 +4,15 @@ import (
 	"context"
 	"fmt"
 	"math/rand"
+	"sort"
+	"strings"
 	"sync"
 
+	"github.com/lindb/roaring"
+
+	"github.com/lindb/lindb/flow"
 	"github.com/lindb/lindb/internal/concurrent"
+	"github.com/lindb/lindb/zzverif/internal/core"
 )
 
 // ---- round 12 -------------------------------------------------------------------------------------
@@ -135,6 +141,12 @@ func runSparseFixed(r *run) {
 	ask()
 	r.reopen()
 	ask()
+	// the helper itself on the shapes of this case
+	iterOp(r.c, []uint16{3, 4}, []uint16{1, 2, 4})
+	iterOp(r.c, []uint16{3, 4}, []uint16{1, 2, 3, 4})
+	iterOp(r.c, []uint16{3, 4}, []uint16{2, 4})
+	iterOp(r.c, []uint16{2, 3, 4}, []uint16{1, 2, 4})
+	iterOp(r.c, []uint16{0, 9}, []uint16{0, 1, 9, 10})
 	r.c.Branch("fixed/sparse-series-filter")
 }
 
@@ -161,4 +173,122 @@ func runFlushBeforeLoadFixed(r *run) {
 	r.query(qby)
 	r.query(q)
 	r.c.Branch("fixed/flush-between-filter-and-load")
+}
+
+// ---- op `iter`: the real DataLoadContext.Grouping + IterateLowSeriesIDs against the Lean model -------
+
+// iterOp runs the real helper on a query container and a storage container (low series ids,
+// ascending) and compares the callback's arguments with the model (op line) and with the property's
+// own statement: every stored id the query selects is visited once, with ITS position in the storage.
+func iterOp(c *core.Ctx, q, st []uint16) {
+	if len(q) == 0 || len(st) == 0 {
+		return // neither loader is built for an empty container (the stores drop emptied containers)
+	}
+	qb := roaring.New()
+	for _, x := range q {
+		qb.Add(uint32(x))
+	}
+	sb := roaring.New()
+	for _, x := range st {
+		sb.Add(uint32(x))
+	}
+	var got []string
+	func() {
+		defer func() {
+			if r := recover(); r != nil {
+				got = []string{fmt.Sprintf("panic")}
+				c.Fail("panic", fmt.Sprintf("IterateLowSeriesIDs(query %v, storage %v) panicked: %v", q, st, r))
+			}
+		}()
+		ctx := &flow.DataLoadContext{LowSeriesIDsContainer: qb.GetContainerAtIndex(0)}
+		ctx.Grouping()
+		ctx.IterateLowSeriesIDs(sb.GetContainerAtIndex(0), func(qi uint16, si int) {
+			got = append(got, fmt.Sprintf("%d:%d", qi, si))
+		})
+	}()
+	var want []string
+	inQ := map[uint16]bool{}
+	for _, x := range q {
+		inQ[x] = true
+	}
+	for i, s := range st {
+		if inQ[s] {
+			want = append(want, fmt.Sprintf("%d:%d", s-q[0], i))
+		}
+	}
+	line := func(ps []string) string {
+		if len(ps) == 0 {
+			return "pairs"
+		}
+		return "pairs " + strings.Join(ps, ",")
+	}
+	csv := func(xs []uint16) string {
+		if len(xs) == 0 {
+			return "-"
+		}
+		var p []string
+		for _, x := range xs {
+			p = append(p, fmt.Sprint(x))
+		}
+		return strings.Join(p, ",")
+	}
+	c.Op("iter "+csv(q)+" | "+csv(st), line(got))
+	c.Branch("op/iter")
+	if len(st) > 0 && len(q) > 0 {
+		below := 0
+		for _, s := range st {
+			if s < q[0] {
+				below++
+			}
+		}
+		if below >= 2 && !func() bool {
+			for _, s := range st {
+				if s == q[0] {
+					return true
+				}
+			}
+			return false
+		}() && len(want) > 0 {
+			c.Branch("iter/shape:first-selected-absent-after-smaller-ids")
+		}
+	}
+	if line(got) != line(want) {
+		c.Fail("iterate-series-position-ne-own", fmt.Sprintf("query low series ids %v over a storage unit holding %v: IterateLowSeriesIDs passed (query index:storage position) %v, the selected series sit at %v", q, st, got, want))
+	}
+	if len(want) > 0 {
+		c.NonTrivial()
+	}
+}
+
+// iterRandom draws a query container and a storage container; one in three in the shape "ids below
+// the query's smallest, the smallest itself absent".
+func iterRandom(c *core.Ctx, rng *rand.Rand) {
+	pool := []uint16{0, 1, 2, 3, 4, 5, 6, 7, 8, 9, 10, 11, 12, 13, 14, 15, 16, 17, 18, 19, 20, 300, 4096, 4097, 65534, 65535}
+	draw := func(n int, from []uint16) []uint16 {
+		if n > len(from) {
+			n = len(from)
+		}
+		perm := rng.Perm(len(from))[:n]
+		sort.Ints(perm)
+		var out []uint16
+		for _, p := range perm {
+			out = append(out, from[p])
+		}
+		return out
+	}
+	q := draw(1+rng.Intn(7), pool)
+	st := draw(rng.Intn(11), pool)
+	if rng.Intn(3) == 0 {
+		// storage = some ids below q's smallest + some of q's other ids + strangers
+		var below, rest []uint16
+		for _, x := range pool {
+			if x < q[0] {
+				below = append(below, x)
+			} else if x != q[0] {
+				rest = append(rest, x)
+			}
+		}
+		st = append(draw(rng.Intn(4), below), draw(rng.Intn(6), rest)...)
+	}
+	iterOp(c, q, st)
 }
